@@ -99,10 +99,10 @@ def main():
             mesh = fem.Cube(b=(2, 1, 1), n=(3, 2, 2))
             region = fem.RegionHexahedron(mesh)
             f = fem.FieldsMixed(region, n=3)
-            solid = fem.SolidBody(fem.ThreeFieldVariation(fem.NeoHooke(mu=1.0, bulk=20.0)), f, density=1.5)
+            solid = fem.SolidBody(fem.ThreeFieldVariation(fem.NeoHooke(mu=1.25, bulk=20.0)), f, density=1.5)
             b = {"left": fem.Boundary(f[0], fx=0)}
             job = fem.FreeVibration(items=[solid], boundaries=b).evaluate(k=3)
-            fresh = fem.SolidBody(fem.ThreeFieldVariation(fem.NeoHooke(mu=1.0, bulk=20.0)), f.copy(), density=1.5)
+            fresh = fem.SolidBody(fem.ThreeFieldVariation(fem.NeoHooke(mu=1.25, bulk=20.0)), f.copy(), density=1.5)
             K = fresh.assemble.matrix().toarray()
             M = fresh.assemble.mass().toarray()
             n = K.shape[0]
@@ -118,7 +118,7 @@ def main():
         if out.want(rid):
             mesh = fem.Cube(b=(2, 1, 1), n=(3, 2, 2))
             f = fem.FieldsMixed(fem.RegionHexahedron(mesh), n=3)
-            mat = lambda: fem.ThreeFieldVariation(fem.NeoHooke(mu=1.0, bulk=20.0))  # noqa: E731
+            mat = lambda: fem.ThreeFieldVariation(fem.NeoHooke(mu=1.25, bulk=20.0))  # noqa: E731
             solid = fem.SolidBody(mat(), f, density=1.5)
             maskJ = np.zeros(f[2].values.shape, dtype=bool)
             maskJ[rng.choice(maskJ.shape[0], size=2, replace=False)] = True
